@@ -160,14 +160,15 @@ func labelCases(thorough bool) []*LabelCase {
 	return out
 }
 
-func runLabelCases(r *ev.Run, g *gstat, cases []*LabelCase) {
-	parallel(cases, func(c *LabelCase) {
+func runLabelCases(r *sink, g *gstat, cases []*LabelCase) {
+	parallel(r, cases, func(c *LabelCase) {
 		body, stored, err := runLabels(c)
 		if err != nil {
 			ev.Fatal("labels %s: service returned an error: %v", c.Endpoint, err)
 		}
 		g.add(body)
-		r.Distinct(fmt.Sprintf("lbl|%s|%q|%q", c.Endpoint, c.Rows, c.Sets))
+		debugBody(body)
+		r.Distinct_(fmt.Sprintf("lbl|%s|%q|%q", c.Endpoint, c.Rows, c.Sets))
 		if b := checkLabels(c, body, stored); b != nil {
 			r.Outcome(b.Class)
 			violate(r, "labels", c, b)
